@@ -8,6 +8,12 @@ from pathlib import Path
 
 VERIF = Path(__file__).resolve().parent.parent
 NOTES = {
+    "C02-r3change2": "MISSED by ./check C02 (the plans do not reach a lightning hit with zero frost stacks while the shock is active); it is the mechanism of C08-change1 (a reducer's `+=` on a module-level Stat) and is caught by `./check C08 quick` with a failing input and by the effect checker independently of any state",
+    "C07-r3change1": "missed at first: added time-advance forks (one long elapse from reached checkpoints so that buffs run out while cooldowns still run, then every skill pressed once on its own copy of the store); also rejected by the C08 effect checker (a query method that assigns)",
+    "C07-r3change2": "MISSED by ./check C07 quick (needs Order swords, Storm cast and run out in one elapse step); a pydantic validator of a state class that writes an entity was a blind spot of the effect model too: validators / serializers / computed fields / __init__ / model_post_init of every entity, state and component class are now lowered and checked like methods (gen_effects.lower_hooks), the harvest replay rebuilds each state object and compares the entities, and the targeted search also visits the states reached when time passes; caught by `./check C08 quick` with a failing input",
+    "C08-r3change2": "caught by the broken obligation only (the private cache is rejected by the translator / checker); a failing input needs two Storm uses with different sword counts on one component; the replay now also repeats every call on a pristine component rebuilt from the component's own dump",
+    "C15-r3change1": "missed at first: added the same expression evaluated back to back under two bindings that hold the same values in the same dict order under swapped names",
+    "C15-r3change2": "missed at first: added ceil / floor arguments a hair's breadth (1e-7 .. 1e-6) away from an integer, as literals and through variables",
     "C02-r2change1": "missed at first: no unit went through the plan-text API on the shipped example plans; every plan unit now records what parse_simaple_runtime / has_environment say about its job's example plan and then asks get_initial_plan_from_baseline for another character (also in the noise steps)",
     "C11-r2change1": "first reported without a failing input (translator refusal only); the laws evaluated on the real operators now include: the result of +, sum, stack is a new object and a later += on it leaves every operand unchanged",
     "C11-r2change2": "the harness crashed at first (ValidationError out of Stat.stack); an operator that raises on a legal block is now a failing input",
